@@ -15,7 +15,7 @@ from mutants import MUTANTS, BENIGN  # noqa: E402
 
 
 def run_check(prop, repo):
-    env = dict(os.environ, RSAV_REPO=repo)
+    env = dict(os.environ, RSAV_REPO=repo, RSAV_OUT_DIR=os.path.join(os.path.dirname(repo), "out"))   # reports/evidence of mutant runs go to the scratch dir
     r = subprocess.run([os.path.join(VERIF, "check"), prop], cwd=VERIF, env=env, stdout=subprocess.PIPE, stderr=subprocess.STDOUT, text=True)
     return r.returncode, r.stdout
 
@@ -32,8 +32,6 @@ def main():
     failures = []
     try:
         subprocess.check_call(["rsync", "-a", "--exclude", "target", "--exclude", ".git", "/repo/", repo + "/"])
-        evid_backup = os.path.join(scratch, "evidence")
-        shutil.copytree(os.path.join(VERIF, "evidence"), evid_backup)
         for m in MUTANTS + [dict(b, benign=True) for b in BENIGN]:
             if args and not any(a in m["name"] for a in args):
                 continue
@@ -83,9 +81,6 @@ def main():
                 for p2, orig in extra_saved:
                     open(p2, "w").write(orig)
                 open(p, "w").write(src)
-        # restore evidence written against the scratch copy
-        shutil.rmtree(os.path.join(VERIF, "evidence"))
-        shutil.copytree(evid_backup, os.path.join(VERIF, "evidence"))
     finally:
         shutil.rmtree(scratch, ignore_errors=True)
     print("\n%d failure(s)" % len(failures))
